@@ -316,7 +316,12 @@ def _two_job(job):
     dispatched on that one only.  job = sequence of (target 0/1, alphabet index)."""
     seq = job
     lib.reset_library()
-    a = ARig()
+    try:
+        a = ARig()
+    except core.RigFailure as e:
+        # the very first connection does not complete: its own handshake datagrams are not dispatched to their consumers
+        return ("handshake", f"a client cannot connect to a healthy spa - the handshake's datagrams do not reach their "
+                             f"consumers: {str(e)[:300]}"), "setup"
     # second client on the same loop/net
     from geckolib import GeckoAsyncSpa, GeckoAsyncSpaDescriptor, AsyncTasks
     cid_b = b"IOSgeckomc-0002"
